@@ -33,7 +33,7 @@ def cases(tier, seed):
     out.append(dict(t="algebra", seed=R.randrange(1 << 30), n=20000 if tier == "quick" else 100000, exh=3 if tier == "quick" else 4))
     n = 1500 if tier == "quick" else 15000
     for i in range(n):
-        s = gens.gen_pyramid(R, maxdepth=4 if tier == "quick" else 5)
+        s = gens.gen_pyramid(R, maxdepth=4 if tier == "quick" else 5, redepth_p=0.1)
         s["t"] = "pyr"
         s["par"] = (i % 6 == 0) if tier == "quick" else (i % 10 == 0)
         s["seed"] = R.randrange(1 << 30)
